@@ -369,7 +369,10 @@ def h_c16(case, pick, st, stats):
     ty = case.get("fromty", "")
     # (NumPy masked arrays cannot say "this whole row is missing": option-of-list types are compared through Arrow only)
     rect = "option[" not in ty and "var" not in ty and "{" not in ty and "(" not in ty and "union" not in ty and "string" not in ty and "bytes" not in ty
-    if rect:
+    import re as _re
+    # arrays of strings (possibly under fixed-size dimensions) are NumPy '<U' / 'S' arrays
+    strrect = _re.match(r"^(\d+ \* )*(string|bytes)$", ty) is not None
+    if rect or strrect:
         try:
             arr = ak.to_numpy(A, allow_missing=True)
         except ORDINARY as e:
